@@ -110,6 +110,7 @@ Definition abs_src (s : source) : lsource :=
   | SrcStdin => LShared
   | SrcOwn d => LLines (split_lines (concat d))
   | SrcMem ls => LLines ls
+  | SrcInput d => LLines (split_lines (concat d))
   end.
 
 Definition abs_dev (d : dev) : list line := split_lines (concat d).
@@ -214,6 +215,7 @@ Definition src_bytes (s : source) (stdin : dev) : nat :=
   | SrcStdin => length (concat stdin)
   | SrcOwn d => length (concat d)
   | SrcMem ls => length ls
+  | SrcInput d => length (concat d)
   end.
 
 (* x = "" or x ends with a newline *)
